@@ -76,7 +76,7 @@ CHECKS = {
     technique="Coq proof (invariant over a small-step interleaving semantics, unbounded producers/pushes/schedules) + exhaustive small-configuration schedule replay on the hooked implementation",
     design="§2 C13"),
  "C10": dict(
-    text="Partial. Theorems C10_find_sound (whatever the backtracking search returns is a registered route whose pattern matches the path, parameters/wildcards bound to the prescribed segments in path order), C10_find_complete (if any registered route matches, a route is found: 404/405 only when none matches), C10_status (exactly one of handler / 405 with other matching methods / not found), for every table and path. The choice among several matching routes (precedence fixed>param>optional>wildcard) is decided by an independent Python oracle on the implementation's answers and by the model/implementation correspondence through a live Rest::Router endpoint, not yet by a theorem.",
+    text="Partial. Theorems C10_find_sound (whatever the backtracking search returns is a registered route whose pattern matches the path, parameters/wildcards bound to the prescribed segments in path order), C10_find_complete (if any registered route matches, a route is found: 404/405 only when none matches), C10_status (exactly one of handler / 405 with other matching methods / not found), for every table and path; C10_best_route and C10_best_route_is_unique (precedence: in a tree without optional parameters whose nodes each have at most one parameter name, the route found is the matching route whose sequence of segment kinds - fixed, parameter, wildcard - is lexicographically least among all matching routes, and it is the only one with that sequence). With optional parameters the precedence the property states is NOT what the search does (open finding C10-present-first). The choice among several matching routes in the remaining cases (optional parameters, several parameter names in one node) is decided by an independent Python oracle on the implementation's answers and by the model/implementation correspondence through a live Rest::Router endpoint, not yet by a theorem.",
     note="Closed under the global context. The trie is modelled as the set of (remaining pattern, handler) entries with child maps as derivatives; tables in the correspondence keep one parameter/optional name per tree position (the C++ iterates same-kind children in hash order; see DESIGN.md F2). Trusted: harness/h_router.cc (live endpoint + raw socket), Python spec oracle.",
     technique="Coq proof (soundness + completeness of backtracking search w.r.t. a pattern-matching spec) + live-endpoint differential correspondence + independent precedence oracle",
     design="§2 C10"),
